@@ -47,6 +47,31 @@ def run(ctx):
     go2 = ctx.gotest(PKG, "^TestVerif_C17_Contract$", ["c17_test.go"], label="contract",
                      env={"VERIF_RUNS": ctx.pick(40, 400), "VERIF_MAXTICKS": ctx.pick(24, 80)})
     ctx.absorb(go2)
+    # 5. several messages with their own contexts on one ticker (TickerMulti)
+    gm = ctx.tlc(SPEC, "TickerMulti", cfg="Gen_Multi", workers=1, label="Gen_Multi", dump_trace=False)
+    multi = ctx.read_emitted(gm, "multi.ndjson")
+    if len(multi) < 1000:
+        ctx.broken("TickerMulti generated only %d behaviours" % len(multi))
+    import random as _r
+    rnd2 = _r.Random(ctx.seed + 17)
+    # behaviours where a message is registered after another one was cancelled and removed are the interesting ones
+    def late_reg(b):
+        seen_removed = False
+        cancelled = set()
+        for s in b["steps"]:
+            if s["a"] == "Cancel":
+                cancelled.add(s["h"])
+            elif s["a"] == "Tick" and cancelled:
+                seen_removed = True
+            elif s["a"] == "Register" and seen_removed:
+                return True
+        return False
+    lr = [b for b in multi if late_reg(b)]
+    rest = [b for b in multi if not late_reg(b)]
+    sel_m = multi if ctx.thorough else rnd2.sample(lr, min(len(lr), 150)) + rnd2.sample(rest, min(len(rest), 100))
+    go3 = ctx.gotest(PKG, "^TestVerif_C17_Multi$", ["c17_test.go"], inputs={"multi.ndjson": sel_m}, label="multi",
+                     timeout=ctx.pick(600, 3000))
+    ctx.absorb(go3)
     for strat, cfg in (("backoff", "Trace_Backoff"), ("standard", "Trace_Standard")):
         tp = ctx.trace_path(go2, "trace_" + strat)
         ok, tr = ctx.validate_trace(SPEC, "Trace_Retransmission", tp, cfg=cfg, label=cfg)
